@@ -76,6 +76,9 @@ def tlc(scratch, module, cfg_text, name=None, workers=None, extra=(), timeout=18
            "-config", name + ".cfg"]
     if simulate:
         cmd += ["-simulate", simulate]
+    covdir = os.environ.get("VERIF_TLC_COVERAGE")   # vacuity audit: per-action counts of every exhaustive run
+    if covdir and not simulate:
+        cmd += ["-coverage", "1"]
     cmd += list(extra) + [module + ".tla"]
     t0 = time.time()
     env = dict(os.environ)
@@ -85,6 +88,10 @@ def tlc(scratch, module, cfg_text, name=None, workers=None, extra=(), timeout=18
         env.update(env_extra)
     p = subprocess.run(cmd, cwd=d, stdout=subprocess.PIPE, stderr=subprocess.STDOUT, text=True, env=env)
     out = p.stdout
+    if covdir and not simulate:
+        os.makedirs(covdir, exist_ok=True)
+        with open(os.path.join(covdir, name + ".out"), "w") as f:
+            f.write(out)
     res = dict(ok=False, generated=0, distinct=0, depth=0, out=out, violated=None, dir=d, wall=time.time() - t0,
                cmd=" ".join(cmd), rc=p.returncode)
     m = None
